@@ -431,6 +431,10 @@ def c19() -> int:
     needs = ["c19:move", "c19:charge", "c19:station_load_nonzero", "c19:pickup", "c19:dropoff"]
     fsx(c, ("hivemc.w_log", "make_res", {"variant": "core", "gas": True, "prices": True, "mechs": ("thirsty", "small", "ice")}),
         ("hivemc.bundles", "c19", {}), K=2 if quick else 3, H=7 if quick else 9, needs=needs)
+    # a selective log (log_sim_config keeps the station loads and the request events, not the per-vehicle move / charge events)
+    fsx(c, ("hivemc.w_log", "make_res", {"variant": "core", "gas": True, "prices": True, "mechs": ("thirsty", "small", "ice"), "name": "W-res/log/selective",
+                                         "log_only": ["station_load_event", "add_request_event", "pickup_request_event", "dropoff_request_event", "cancel_request_event"]}),
+        ("hivemc.bundles", "c19", {}), K=2, H=6 if quick else 8, needs=["c19:station_load_nonzero"])
     fsx(c, ("hivemc.w_log", "make_req", {}), ("hivemc.bundles", "c19", {}), K=3 if quick else 4, H=8 if quick else 10, needs=["c19:pickup", "c19:dropoff"])
     fsx(c, ("hivemc.w_log", "make_req", {"requests": ["p0", "p1", "r2"], "name": "W-req/pooling/log", "prestart": ("p0", "p1")}), ("hivemc.bundles", "c19", {}), K=2 if quick else 3, H=8 if quick else 10, needs=["c19:pickup"])
     # a run that starts two minutes before midnight: requests issued before it are picked up and dropped off after it
